@@ -69,7 +69,14 @@ def gen_case(rng, big=False):
             dict(field='b', mod=None, brk=False, lo=1, hi=999, spec='b', hidden=False),
             dict(field='d', mod=None, brk=False, lo=1000, hi=1100, spec='d:1000-1100', hidden=False)], None
         later, shape = None, None
-    return dict(centered=centered, shape=shape, rec_fmt_first=rng.random() < 0.25, recs=recs, fmt=fmt, cols=cols, limits=limits, lim_arg=lim_arg, header=header, footer=footer,
+    bounded = None
+    if rng.random() < 0.25 and later in (None, 'grow', 'interleave'):
+        # width bounds configured on the field type: they hold for columns the format names without widths
+        bounded = (rng.choice(['a', 'b', 'd']), rng.choice([0, 2, 6]), rng.choice([6, 8, 12]))
+        for col in cols:
+            if col['field'] == bounded[0] and ':' not in col['spec']:
+                col['lo'], col['hi'] = bounded[1], bounded[2]
+    return dict(fail_first=rng.random() < 0.12 and later is None, bounded=bounded, centered=centered, shape=shape, rec_fmt_first=rng.random() < 0.25, recs=recs, fmt=fmt, cols=cols, limits=limits, lim_arg=lim_arg, header=header, footer=footer,
                 titles=titles, later=later, grow_by=rng.choice([1, 1, -1]),
                 new_bounds=[(rng.choice([0, 1, 2, 3]), rng.choice([3, 4, 6, 9, 30])) for _ in range(3)],
                 extra_recs=T.gen_records(rng, (1, 3, 6)))
@@ -111,7 +118,7 @@ def judge(ctx, c, case):
         recs_in, fmt_in, fields_in = shaped(c)
         if c.get('shape'):
             ctx.count("tables_with_other_record_shapes")
-        ftypes = T.mk_field_types(c.get('centered'))
+        ftypes = T.mk_field_types(c.get('centered'), c.get('bounded'))
         if c.get('rec_fmt_first') and c['recs'] and not c.get('shape'):
             # the same field type objects were used by a one-line record formatter before, and the caller
             # built its output line from the returned column texts, in place
@@ -123,9 +130,20 @@ def judge(ctx, c, case):
                 ctx.count("record_formatter_used_before_the_table")
             except Exception:
                 ctx.count("record_formatter_raises(observed, outside the property)")
+        broken = c.get('fail_first') and c['recs'] and not c.get('shape')
+        if broken:
+            # a malformed record makes the first print fail; the caller repairs the record and prints again
+            recs_in = list(recs_in)
+            recs_in[0] = recs_in[0][:1]
         t = PPTable(recs_in, fields=fields_in, fmt=fmt_in, limits=c['lim_arg'], header=c['header'],
                     footer=c['footer'], fields_types=ftypes,
                     fields_titles=dict(c['titles']))
+        if broken:
+            try:
+                T.render(t)
+            except Exception:
+                ctx.count("first_print_failed_on_a_malformed_record")
+            recs_in[0] = c['recs'][0]
         lines = T.render(t).split("\n")
     except Exception as err:
         ctx.violation("table-raises", {"type": type(err).__name__, "msg": str(err)[:200], "fmt": c['fmt']}, case)
